@@ -486,7 +486,7 @@ def unit_period():
 
 def run_task(task):
     k = task[0]
-    if k in ("engine-chain", "engine-proc", "kernel-agrees", "canary-kernel-agrees"):
+    if k in ("engine-chain", "engine-proc", "engine-tb-order", "kernel-agrees", "canary-kernel-agrees"):
         from . import c08_engine
         return c08_engine.run_task(task)
     if k == "sig-update":
